@@ -14,6 +14,7 @@
   longer assumed: `{ pet { ... on Dog { v: bark } ... on Cat { v: lives } } }` is `MergeSafe`.
 -/
 import PyGqlModel.Props.C05_exec
+import PyGqlModel.Props.C05
 import PyGqlModel.Spec.MergeSafe
 
 set_option linter.unusedSimpArgs false
@@ -68,7 +69,13 @@ theorem overlap_not_exclusive (s : SchemaD) (P1 P2 : String) (h : Overlap s P1 P
     · simp [isPossibleType, h2] at u2
   · simp [isPossibleType, h1] at u1
 
-/-- merge safety of a scope -/
+/-- merge safety of a scope. Clause 1: same-key fields under OVERLAPPING parents are the same call. Clause 2: their merged
+    sub-selections are merge-safe again (this is where the predicate recurses: only sub-selections that can meet in one
+    response object are merged). Clause 3 (`SameResponseShape` on the declared types): ALL same-key fields of the scope,
+    also under mutually exclusive parents, declare types of one shape class — used by `same_key_one_shape` /
+    `same_key_value_unambiguous` below. For exclusive pairs it is stated at this level only: their sub-selections are never
+    merged into one response object, so nothing the executor does depends on a deeper comparison (the validation rule
+    compares them further; that part constrains what clients can assume across different runtime types, not execution). -/
 inductive MS (s : SchemaD) (doc : Doc) : TSels → Prop
   | intro {L : TSels} :
       (∀ x y, InScope doc L x → InScope doc L y → x.2.key = y.2.key → Overlap s x.1 y.1 → x.2.name = y.2.name ∧ x.2.args = y.2.args) →
@@ -684,5 +691,76 @@ theorem same_group_same_call (s : SchemaD) (doc : Doc) (vars : Vars) (L : TSels)
   obtain ⟨P2, hi2, hu2, _⟩ := h2
   cases hms with
   | intro h _ _ => exact h (P1, n1) (P2, n2) hi1 hi2 hk ⟨rt, hu1, hu2⟩
+
+/-! ### the `sameShape` clause at work: one response SHAPE per response key, whichever selection is looked at -/
+
+/-- declared types of the same shape class admit exactly the same response values -/
+theorem sameShape_shapeOk (s : SchemaD) : ∀ (t u : Ty), sameShape s t u = true → ∀ d, shapeOk s t d = shapeOk s u d := by
+  intro t
+  induction t with
+  | nonNull a ih =>
+    intro u h d
+    cases u with
+    | nonNull b => simp only [sameShape] at h; simpa [shapeOk] using ih b h d
+    | list b => simp [sameShape] at h
+    | named b => simp [sameShape] at h
+  | list a ih =>
+    intro u h d
+    cases u with
+    | list b =>
+      simp only [sameShape] at h
+      have hf : shapeOk s a = shapeOk s b := funext (ih b h)
+      cases d <;> simp [shapeOk, hf]
+    | nonNull b => simp [sameShape] at h
+    | named b => simp [sameShape] at h
+  | named a =>
+    intro u h d
+    cases u with
+    | named b =>
+      simp only [sameShape, Bool.or_eq_true, Bool.and_eq_true, beq_iff_eq] at h
+      rcases h with rfl | ⟨ha, hb⟩
+      · rfl
+      · cases d with
+        | null => simp [shapeOk]
+        | list l => simp [shapeOk]
+        | obj kvs => simp [shapeOk, ha, hb]
+        | leaf j =>
+          unfold isComposite at ha hb
+          simp only [shapeOk]
+          cases hka : kindOf s a with
+          | none => simp [hka] at ha
+          | some ka =>
+            cases hkb : kindOf s b with
+            | none => simp [hkb] at hb
+            | some kb => cases ka <;> cases kb <;> simp_all
+    | nonNull b => simp [sameShape] at h
+    | list b => simp [sameShape] at h
+
+/-- **same_key_one_shape**: in a merge-safe scope, all selections with one response key — including those under
+    MUTUALLY EXCLUSIVE parent types, which never meet in one response object and may name different fields — declare
+    types that admit the same response values: the shape found under a response key can be read off ANY of them. -/
+theorem same_key_one_shape (s : SchemaD) (doc : Doc) (L : TSels) (hms : MS s doc L) (x y : String × FNode)
+    (hx : InScope doc L x) (hy : InScope doc L y) (hk : x.2.key = y.2.key) (t u : Ty)
+    (ht : fieldTy s x.1 x.2 = some t) (hu : fieldTy s y.1 y.2 = some u) : ∀ d, shapeOk s t d = shapeOk s u d := by
+  cases hms with
+  | intro _ _ h3 => exact sameShape_shapeOk s t u (h3 x y t u hx hy hk ht hu)
+
+/-- **same_key_value_unambiguous**: "one unambiguous value per response key", shape part — whatever value the executor
+    produces for a field (of ANY parent object type, with any nodes) has the shape declared by EVERY selection of the
+    merge-safe scope that carries the same response key and whose type is `sameShape`-related to the field's; so the
+    order in which same-key selections appear, and which of them applies at run time, cannot change the response shape. -/
+theorem same_key_value_unambiguous (s : SchemaD) (doc : Doc) (vars : Vars) (w : World) (cf n : Nat) (L : TSels) (hms : MS s doc L)
+    (x y : String × FNode) (hx : InScope doc L x) (hy : InScope doc L y) (hk : x.2.key = y.2.key)
+    (fd : FieldD) (u : Ty) (ht : fieldTy s x.1 x.2 = some fd.type) (hu : fieldTy s y.1 y.2 = some u)
+    (parent : String) (path : Path) (nodes : List FNode) (d : Data) (es : List Err)
+    (h : resolveField s w (executeFields s doc vars w cf n) parent path nodes fd = .ok (d, es)) : shapeOk s u d = true := by
+  rw [← same_key_one_shape s doc L hms x y hx hy hk fd.type u ht hu d]
+  exact validated_shape_field s doc vars w cf n parent path nodes fd d es h
+
+/-- non-vacuity: in `exclusiveDoc` the key `v` is `bark : Int` under `Dog` and `lives : Int` under `Cat` — same shape;
+    and the evaluator rejects `{ pet { ... on Dog { v: bark } ... on Cat { v: name } } }` (`Int` against `String`) -/
+example : sameShape petSchema (.named "Int") (.named "Int") = true := by decide
+example : mergeSafeB petSchema { ops := [{ kind := "query", name := none, sels := [.field "pet" "pet" 2 [] [] true
+    [.inline (some "Dog") [] [.field "v" "bark" 20 [] [] false []], .inline (some "Cat") [] [.field "v" "name" 40 [] [] false []]]] }], frags := [] } = false := by decide
 
 end PyGql.Props.C05
